@@ -198,7 +198,7 @@ example : let m : Mem 64 := { buf := #[], size := 0, offset := 2 ^ 60 }
 calls whose intermediate states and arguments stay inside the range guard, the model of `Memory`
 refines the abstract unbounded tape: the outputs (one slot per call, the value for reads) are
 equal, the final states are related, and the representation invariant holds. -/
-theorem history_refines (ops : List (Op w)) (m : Mem w) (s : Spec w)
+theorem history_refines (ops : List (MemOp w)) (m : Mem w) (s : Spec w)
     (hwf : WF m) (habs : Abs m s) (hg : GuardAll m ops) :
     let (m', outs) := m.run ops
     let (s', outs') := s.run ops
@@ -207,19 +207,19 @@ theorem history_refines (ops : List (Op w)) (m : Mem w) (s : Spec w)
 
 /-- Corollary, from `Memory::new()`: every read returns the value most recently written to that
 logical cell, `0` if it was never written.  `pre` is the history before the read, `post` anything
-after it (unconstrained); `Op.ptrAfter 0 pre` is the logical pointer (sum of the moves) and
-`Op.lastWrite 0 pos pre` the last value written to logical position `pos` by `pre`, if any. -/
-theorem history_reads (pre post : List (Op w)) (off : Int)
-    (hg : GuardAll (Mem.new : Mem w) (pre ++ [Op.read off])) :
-    ((Mem.new : Mem w).run (pre ++ Op.read off :: post)).2[pre.length]? =
-      some (some ((Op.lastWrite 0 (Op.ptrAfter 0 pre + off) pre).getD 0#w)) := by
-  have e : pre ++ Op.read off :: post = (pre ++ [Op.read off]) ++ post := by simp
+after it (unconstrained); `MemOp.ptrAfter 0 pre` is the logical pointer (sum of the moves) and
+`MemOp.lastWrite 0 pos pre` the last value written to logical position `pos` by `pre`, if any. -/
+theorem history_reads (pre post : List (MemOp w)) (off : Int)
+    (hg : GuardAll (Mem.new : Mem w) (pre ++ [MemOp.read off])) :
+    ((Mem.new : Mem w).run (pre ++ MemOp.read off :: post)).2[pre.length]? =
+      some (some ((MemOp.lastWrite 0 (MemOp.ptrAfter 0 pre + off) pre).getD 0#w)) := by
+  have e : pre ++ MemOp.read off :: post = (pre ++ [MemOp.read off]) ++ post := by simp
   rw [e, run_prefix_out _ _ _ _ (by simp)]
   rw [(history_refines' _ _ _ wf_new abs_new hg).1]
   exact Spec.run_read_out pre [] off
 
 /-- A history with growth below, far moves, growth on both sides at once, and revisits. -/
-def sampleOps : List (Op 8) :=
+def sampleOps : List (MemOp 8) :=
   [.write (-100) 1#8, .mov 1000000, .read (-1000100), .makeAccessible (-2000000) 50, .check (-5),
    .write 7 3#8, .mov (-1000000), .read 1000007, .read (-100), .mov (-123456789012345), .read 9]
 
